@@ -672,6 +672,17 @@ def check_dominates(ctx):
     for c in readers:
         conds = gc_.atoms_at(gc_.nodes_of(c))
         ctx.check(any(isinstance(tt, ast.Call) and call_name(tt) == "self._is_in_cache_and_valid" and pol for (_, tt, pol) in conds), c, "cache is read only after _is_in_cache_and_valid() answered True")
+    # writers too: a result is stored in the directory labelled by func_code.py, so the forced-execution entry point
+    # must have checked (and, on a change, wiped) that label before it persists anything there
+    fc = M(ctx, "MemorizedFunc.call")
+    gfc = cfg_of(fc)
+    persist = [c for c in calls_in(fc) if call_name(c) in ("self._call", "self._after_call")]
+    chk_w = [c for c in calls_in(fc) if call_name(c) in ("self._check_previous_func_code", "self._is_in_cache_and_valid")]
+    for c in persist:
+        ctx.check(bool(chk_w) and gfc.every_path_to(gfc.nodes_of(c), gfc.nodes_of_all(chk_w)), c, "call() checks the stored source before it persists a result next to it",
+                  "call() persists its result without checking the stored source: a value computed by the edited function lands in the directory labelled with the previous source, "
+                  "and a process running the previous source gets it as a valid hit", key=MEM + "::MemorizedFunc.call::code check before persisting")
+    ctx.floor(len(persist), 1, "persisting calls in MemorizedFunc.call")
     ck = M(ctx, "MemorizedFunc.check_call_in_cache")
     rets = nodes_of_type(ck, ast.Return)
     ctx.check(len(rets) == 1 and isinstance(rets[0].value, ast.Call) and call_name(rets[0].value) == "self._is_in_cache_and_valid", rets[0] if rets else ck, "check_call_in_cache answers through _is_in_cache_and_valid")
@@ -749,6 +760,31 @@ def fastpath_coherent(ctx):
             if call_attr(c) == "store_cached_func_code" and len(c.args) + len(c.keywords) >= 2:
                 writers.append((fn, c))
     ctx.need(writers, "no writer of the stored source found")
+    # the table shadows the func_code.py of ONE store: an entry made while validating against store A says nothing about
+    # store B (where func_code.py may not even exist). Either the recorded value / key names the store, or the fast path
+    # itself consults the store before answering True.
+    chk_ = M(ctx, "MemorizedFunc._check_previous_func_code")
+    gk_ = cfg_of(chk_)
+    fast = [r for r in nodes_of_type(chk_, ast.Return) if is_const(r.value, True)
+            and any("_FUNCTION_HASHES" in unparse(t) for (_, t, pol) in gk_.conditions_at(gk_.nodes_of(r)))]
+    if fast:
+        hf = ctx.repo.mod(MEM).funcs.get("MemorizedFunc._hash_func")
+        def names_store(e):
+            return any(d == "self.store_backend" or d.startswith("self.store_backend.") or d in ("self.location", "self._location") for d in attrs_in(e))
+        def names_store_via_locals(e, fn):
+            if names_store(e):
+                return True
+            for nm in names_in(e):
+                if any(names_store(a.value) for a in nodes_of_type(fn, ast.Assign) if nm in stores_to(a)):
+                    return True
+            return False
+        keyed = hf is not None and any(r.value is not None and names_store_via_locals(r.value, hf) for r in nodes_of_type(hf, ast.Return))
+        keyed = keyed or any(isinstance(n, ast.Subscript) and dotted(n.value) == "_FUNCTION_HASHES" and names_store(n.slice) for n in ast.walk(ctx.repo.mod(MEM).tree))
+        guarded = all(any(names_store(t) for (_, t, pol) in gk_.conditions_at(gk_.nodes_of(r))) for r in fast)
+        ctx.check(keyed or guarded, fast[0], "a fast-path entry is specific to the store it was validated against",
+                  "the in-memory table of validated functions is keyed by the function only: a function validated against one store's func_code.py is trusted in every other store "
+                  "(where func_code.py is then never written; after a source change a later process stores the new source there without wiping the old entries and serves them)",
+                  key=MEM + "::MemorizedFunc._check_previous_func_code::fast path is per store")
 
     def invalidates(n):
         if isinstance(n, ast.Call) and call_name(n) in ("_FUNCTION_HASHES.clear", "_FUNCTION_HASHES.pop"):
@@ -1348,3 +1384,29 @@ def meta_dual(ctx):
                   "the writer emits %s text%s but the reader decodes %s: metadata containing non-ASCII text is written and can never be read back (get_metadata answers {})" % (ce, "" if ascii_only else " with non-ASCII characters kept (ensure_ascii=False)", cd))
     else:
         ctx.check(not enc and not dec, (enc or dec or [w])[0], "text mode on both sides", "only one side of the metadata file encodes/decodes explicitly")
+
+
+def table_race(ctx):
+    """Check-then-act on the shared in-memory table: `k in T` followed by `T[k]` is not atomic; another thread running
+    Memory.clear() (T.clear()) or a writer's eviction (T.pop) in between makes the read raise KeyError out of a cached
+    call. Reads of the table must be single operations (`T.get(k)`) or sit in a handler that covers KeyError."""
+    m = ctx.repo.mod(MEM)
+    mutators = [q for q, fn in m.funcs.items() for n in ast.walk(fn)
+                if isinstance(n, ast.Call) and call_name(n) in ("_FUNCTION_HASHES.clear", "_FUNCTION_HASHES.pop", "_FUNCTION_HASHES.popitem")]
+    ctx.floor(len(mutators), 1, "functions that remove entries from _FUNCTION_HASHES")
+    n = 0
+    for q, fn in m.funcs.items():
+        for sub in [x for x in ast.walk(fn) if isinstance(x, ast.Subscript) and dotted(x.value) == "_FUNCTION_HASHES" and isinstance(x.ctx, ast.Load)]:
+            n += 1
+            ok = False
+            for a in ancestors(sub):
+                if isinstance(a, ast.Try) and in_block(sub, a.body) and any(handler_catches(h, ["KeyError"]) for h in a.handlers):
+                    ok = True
+                if isinstance(a, (ast.FunctionDef, ast.AsyncFunctionDef)):
+                    break
+            ctx.check(ok, sub, "the subscript read of the shared table tolerates a concurrent removal (KeyError handled)",
+                      "`%s` in %s is read after a separate membership test and outside any KeyError handler, while %s can empty the table from another thread: "
+                      "a concurrent Memory.clear() makes the cached call raise KeyError" % (unparse(sub, 60), q, ", ".join(sorted(set(mutators))[:3])),
+                      key=MEM + "::" + q + "::unprotected read of _FUNCTION_HASHES")
+    if n == 0:
+        ctx.ok(m.tree.body[0], "the shared table is only read through single operations (.get / membership)")
